@@ -1208,12 +1208,25 @@ impl Check for W3Check {
     }
     fn generate(&self, seed: u64, run: u64, tier: Tier) -> Value {
         let rs = run_seed(seed, self.id, run);
+        if self.id == "C13" && run % 6 == 5 {
+            // twin histories around a refused rollback_before (see w3b::run_c13_twin)
+            let fmt = ["bytes", "zerocopy", "pco", "lz4", "zstd"][(rs % 5) as usize];
+            return json!({"world":"c13-twin","run_seed":rs,"fmt":fmt});
+        }
         let mut rng = Rng::stream(rs, 1);
         let cfg = self.cfg(&mut rng, tier);
         let ops = gen_history(&mut rng, &cfg);
         json!({"world":"w3","run_seed":rs,"cfg":cfg.to_json(),"ops":ops.iter().map(Op::to_json).collect::<Vec<_>>()})
     }
     fn exec(&self, case: &Value, stats: &mut Stats) -> RunResult<()> {
+        if case["world"] == "c13-twin" {
+            let before = stats.get("probe.twin_history_compared");
+            let r = crate::w3b::run_c13_twin(case, stats);
+            if stats.get("probe.twin_history_compared") > before {
+                stats.seen("nontrivial", case["run_seed"].as_u64().unwrap_or(0));
+            }
+            return r;
+        }
         let cfg = Cfg::from_json(&case["cfg"]);
         let ops = case_to_ops(case)?;
         let keys: &[&str] = match self.id {
@@ -1242,7 +1255,7 @@ impl Check for W3Check {
             "C07" => format!("{base}Compressed formats only. Oracle: bit-exact contents after every step; after every write/flush/commit/re-import the page index is read back through rawdb and must be a gap-free run of pages starting right after the header, every page but the last full and compressed, only the last possibly raw, value counts adding up to the stored length, data region ending where the last page ends. non-trivial = a push exactly filled or overflowed the partial page, or a truncation landed inside a page / on a page boundary"),
             "C08" => format!("{base}Battery op: on reached states, for ranges drawn from (empty, reversed, to>len, from>len, full, straddling stored/buffered, straddling pages, random) every read path runs under catch_unwind: collect*, read_into, collect_range_into, fold/try_fold (incl. early exit), for_each (static+dyn), min/max/sum (+dyn), collect_one/first/last, signed ranges, cursor next/fold/get, read_sorted, raw get_any_or_read/collect_holed_range, VecReader, read-only clone, CachedVec, identity LazyVecFrom1, fold_stored_mmap vs fold_stored_io; crossover knob in (0,1,8,100,prod) so both scan back-ends run. Full-state paths are compared with the model restricted to the range (deleted slots skipped / None), stored-only paths with each other and with the stored shadow when known. non-trivial = a battery ran"),
             "C20" => format!("{base}The access tap is switched on around every read battery; every mmap dereference (Reader::unchecked_read, both read_from_ptr impls, native-layout slices, zerocopy refs) and every file read of the I/O back-ends is resolved to a file offset and must lie inside [start, start+len) of one of that vector's own regions at that instant. non-trivial = a battery ran"),
-            _ => format!("{base}Refused requests issued at random points: checked push at a wrong index, update beyond the length, plain import with another version / another format, rollback with no change record. The call must fail; the full model comparison runs immediately and after every later op"),
+            _ => format!("{base}Refused requests issued at random points: checked push at a wrong index, update beyond the length, plain import with another version / another format, rollback with no change record. The call must fail; the full model comparison runs immediately and after every later op. Every sixth run is a TWIN history: commits 1 and 2 with change records, a stamped write 3 without one, pending uncommitted edits, then rollback_before(<=3) - refused, nothing may change - and the continuation commit, rollback, (edit, commit, rollback); the same seeded history is executed again without the refused request and every result, content, deleted-slot set and stamp of the continuation must be identical"),
         }
     }
     fn assumptions(&self) -> Vec<String> {
